@@ -243,6 +243,16 @@ impl MetadataClient for LocalMetadataClient {
         source_chunks: &[String],
         target_chunk: &str,
     ) -> Result<()> {
+        // Never drop the sources unless the chunk that replaces them is registered
+        // (same contract as the object-store backend).
+        if source_chunks.iter().any(|p| p == target_chunk) || !self.chunks.contains_key(target_chunk)
+        {
+            return Err(crate::Error::Metadata(format!(
+                "Compaction target chunk not found in catalog: {}",
+                target_chunk
+            )));
+        }
+
         // Determine the new level (max source level + 1)
         let new_level = source_chunks
             .iter()
